@@ -1,0 +1,17 @@
+//go:build verif
+
+package vsot
+
+// Contracts for the deductive checker in /verif (comment-only; compiled only under the verif tag).
+
+// Sender round 3 (C09): for EVERY OT instance idx = i*L + j the two sender messages handed out element by element are
+// rho_0 = H(idx, B, A_idx, [b]A_idx) and rho_1 = H(idx, B, A_idx, [b](A_idx - B)) (they differ exactly by the
+// receiver's choice of A), with A_idx the idx-th point of the receiver's message.
+//@ func (*Sender).Round3
+//@   property C09
+//@   assert after "senderOutput.Messages[i][1][j] = rho1[idx]": idx == i * s.suite.L() + j && bigA == r2.BigA[idx] && rho0[idx] == res(s.hash(idx, s.state.bigB, bigA, bigA.ScalarMul(s.state.b).ToCompressed()), 0) && rho1[idx] == res(s.hash(idx, s.state.bigB, bigA, bigA.Sub(s.state.bigB).ScalarMul(s.state.b).ToCompressed()), 0)
+//@   assert before "senderOutput.Messages[i][0][j] = rho0[idx]": 0 <= j && j < s.suite.L() && 0 <= i && i < s.suite.Xi()
+//@   loop range(s.suite.Xi())
+//@     invariant len(rho0) == s.suite.Xi() * s.suite.L() && len(rho1) == s.suite.Xi() * s.suite.L()
+//@   loop range(s.suite.L())
+//@     invariant len(rho0) == s.suite.Xi() * s.suite.L() && len(rho1) == s.suite.Xi() * s.suite.L()
